@@ -197,6 +197,12 @@ type GenOpts struct {
 	// UpsertOtherRow: an upsert may name one primary key and meet its duplicate,
 	// through the secondary unique index, on a row with another one
 	UpsertOtherRow bool `json:"upsert_other_row,omitempty"`
+	// ContinueAfterError: inside an explicit transaction the application carries
+	// on after a failed statement and commits what did succeed
+	ContinueAfterError bool `json:"continue_after_error,omitempty"`
+	// FreshConn (with DedicatedConn): the pool keeps no idle connections, so the
+	// pinned connection of every episode is a new physical one
+	FreshConn bool `json:"fresh_conn,omitempty"`
 	// DedicatedConn: the business of an episode runs on one *sql.Conn
 	DedicatedConn bool `json:"dedicated_conn,omitempty"`
 	// BigBlob: most blob values are 40-60 KB of random bytes
@@ -698,9 +704,24 @@ func (s *stmtGen) gen() ATStmt {
 		return ATStmt{SQL: sql, Args: args, Kind: kind}
 	case "update":
 		var sets []string
-		for _, c := range t.Cols {
+		for j, c := range t.Cols {
 			if !t.isPK(c.Name) && s.g.Prob(0.5) {
-				sets = append(sets, fmt.Sprintf("%s = %s", c.Name, s.place(genValFor(s.g, c, s.o), &args)))
+				v := genValFor(s.g, c, s.o)
+				if t.Uniq == c.Name && s.g.Prob(0.3) {
+					// the value another row holds: the statement fails on the unique index
+					var ks []string
+					for k := range s.live[ti] {
+						ks = append(ks, k)
+					}
+					sort.Strings(ks)
+					for _, k := range ks {
+						if other := s.live[ti][k]; other[j].K != "n" {
+							v = other[j]
+							break
+						}
+					}
+				}
+				sets = append(sets, fmt.Sprintf("%s = %s", c.Name, s.place(v, &args)))
 			}
 		}
 		if len(sets) == 0 {
